@@ -276,7 +276,7 @@ package rosmar
 //@   requires forall o: DocId :: DocInv(docAt(o)) && (docAt(o).present ==> docAt(o).exp == 0 || docAt(o).exp > 2592000)
 //@   requires q != nil
 //@   requires !listnil(q.list)
-//@   ensures [C09,C11:backfill.selects]  result == nil ==> cursorCount() == 1 && (forall o: DocId :: cursorWhere(0, o) <==> (docAt(o).present && o.coll == c.id && docAt(o).cas >= startCas))
+//@   ensures [C09,C11,C15:backfill.selects]  result == nil ==> cursorCount() == 1 && (forall o: DocId :: cursorWhere(0, o) <==> (docAt(o).present && o.coll == c.id && docAt(o).cas >= startCas))
 //@   ensures [C09:backfill.ordered]      result == nil ==> cursorOrderBy(0, "cas")
 //@   ensures [C09,C11:backfill.frame]    db == old(db) && stmtsScoped(c.id)
 //@   loop 1 invariant [C09:backfill.loop] true
